@@ -60,16 +60,6 @@ func (v Violation) Sig() string {
 	return s
 }
 
-func isAncestor(r *simrt.Run, anc, t int32) bool {
-	for t >= 0 {
-		if t == anc {
-			return true
-		}
-		t = r.TaskParent(t)
-	}
-	return false
-}
-
 // BuildViews groups the event log by call and rule execution.
 func BuildViews(r *simrt.Run, calls []*Call) map[int]*CallView {
 	views := map[int]*CallView{}
@@ -112,8 +102,10 @@ func BuildViews(r *simrt.Run, calls []*Call) map[int]*CallView {
 		var x *Exec
 		if e.Kind == EvK || e.Kind == EvKE {
 			// a conc child: the execution of the same rule whose task is an ancestor of the child's task
-			for i := len(v.Execs) - 1; i >= 0; i-- {
-				if c := v.Execs[i]; c.Rule == int(e.B) && isAncestor(r, c.Task, e.Task) && open[c.Task] == c {
+			// (the nearest such ancestor: a model may run one rule of a stage on the task that also starts the
+			// goroutines of the others, which makes that task an ancestor of every execution of the stage)
+			for t := e.Task; t >= 0; t = r.TaskParent(t) {
+				if c := open[t]; c != nil && c.Call == int(e.A) && c.Rule == int(e.B) {
 					x = c
 					break
 				}
